@@ -34,6 +34,7 @@ type Collector struct {
 	final      bool
 	colls      []int                       // collection indexes this feed covers
 	OnEvent    func(ev sgbucket.FeedEvent) // optional extra callback hook (parking)
+	backfilled bool                        // started with a backfill (from 0 or a named CAS), then live
 }
 
 var feedSerial int64
@@ -44,6 +45,7 @@ func (w *World) StartLiveFeed(fc FeedCfg) (*Collector, error) {
 
 func (w *World) startFeed(fc FeedCfg, backfill uint64, dump bool, checkpoint string) (*Collector, error) {
 	c := &Collector{Cfg: fc, w: w, term: make(chan bool), done: make(chan struct{})}
+	c.backfilled = !dump && backfill != sgbucket.FeedNoBackfill && backfill != sgbucket.FeedResume
 	c.cond = sync.NewCond(&c.mu)
 	id := fmt.Sprintf("feed%d", atomic.AddInt64(&feedSerial, 1))
 	if checkpoint == "cp" {
@@ -81,6 +83,9 @@ func (w *World) startFeed(fc FeedCfg, backfill uint64, dump bool, checkpoint str
 		scopes := map[string][]string{}
 		for i, cn := range w.Cfg.Colls {
 			if w.Model != nil && w.Model.Colls[i].Dropped {
+				continue
+			}
+			if fc.NoDefault && i == 0 && len(w.Cfg.Colls) > 1 {
 				continue
 			}
 			n := dsName(cn)
@@ -346,7 +351,9 @@ func (r *Run) StartFeedStep(op Op) {
 	withBackfill, _ := op.Arg["backfill"].(bool)
 	backfill := uint64(sgbucket.FeedNoBackfill)
 	if withBackfill {
-		backfill = 0 // a live feed that first replays what is there (C09), then goes on live (C08)
+		// a live feed that first replays what is there (C09), from 0 or from a CAS the op names,
+		// then goes on live (C08)
+		backfill = r.resolveFrom(op)
 	}
 	c, err := w.startFeed(FeedCfg{H: op.H, C: op.C, KeysOnly: keysOnly}, backfill, false, "")
 	if err != nil {
@@ -361,7 +368,7 @@ func (r *Run) StartFeedStep(op Op) {
 			tr.Outcome = "DEVIATION"
 		} else {
 			nDev := len(r.Devs)
-			r.checkBackfillEvents(evs, op.C, 0, keysOnly)
+			r.checkBackfillEvents(evs, op.C, backfill, keysOnly)
 			if len(r.Devs) > nDev {
 				tr.Outcome = "DEVIATION"
 			}
@@ -533,7 +540,11 @@ func (r *Run) compareFeed(fi int, f *Collector, evs []sgbucket.FeedEvent) {
 			continue
 		}
 		if len(is) == 0 {
-			r.Devs = append(r.Devs, Deviation{Clause: "event.missing", Props: c08, Step: e.Step,
+			props := c08
+			if f.backfilled {
+				props = []string{"C08", "C09"} // a feed that joined live after a backfill owes every later mutation
+			}
+			r.Devs = append(r.Devs, Deviation{Clause: "event.missing", Props: props, Step: e.Step,
 				Msg: fmt.Sprintf("feed %d (%+v): no event for the %s of %s/%q at step %d (cas %#x)", fi, f.Cfg, e.OpK, w.Cfg.Colls[e.C], e.Key, e.Step, e.St.Cas),
 				Sig: "event.missing|" + e.OpK})
 			if r.DropHappened {
